@@ -83,6 +83,7 @@ LOGIC_USES = {
 TYPE_IDS = ['string', 'list', 'path'] + sorted(LOGIC_CONST)
 NAME_POOL = ['A', 'B', 'C', 'D', 'E', 'F', 'G2', 'h_1']
 CONSTS = ['a', 'b', 'a b', ':', 'b-a', '', 'ab ', ' ']
+NOISE = ['@[', ']@', '@[bad-name]@', '@[ ', 'x@[', '@[]@', ']@@[', '@ [', '@[a b]@', 'arr@[ ', '@[A', '@[@']
 PATH_CONSTS = ['x', 'x/y', 'd', 'y/z', 'x/../y', './x', 'x//y/']
 
 
@@ -195,6 +196,16 @@ def path_ast_of_plain_argument(frags):
     return ('prelopt', 'REL_CWD', frags)
 
 
+def merge_consts(frags):
+    out = []
+    for f in frags:
+        if f[0] == 'c' and out and out[-1][0] == 'c':
+            out[-1] = ('c', out[-1][1] + f[1])
+        elif not (f[0] == 'c' and f[1] == ''):
+            out.append(f)
+    return out
+
+
 def frags_names(frags):
     return [f[1] for f in frags if f[0] == 's']
 
@@ -238,7 +249,7 @@ class Gen:
             if rng.chance(0.5):
                 if out and out[-1][0] == 'c':
                     continue
-                out.append(('c', rng.choice(CONSTS)))
+                out.append(('c', rng.choice(NOISE) if rng.chance(0.3) else rng.choice(CONSTS)))
             else:
                 out.append(('s', self.pick(want)))
         out = [f for f in out if f[1] is not None]
@@ -396,6 +407,22 @@ class Gen:
 
     def gen_use(self, phase_hint=None):
         rng = self.rng
+        r = rng.below(100)
+        if r < 10:
+            # a here-document: references (and stray reference syntax) across lines
+            fr = []
+            for k in range(rng.randint(1, 3)):
+                fr += self.gen_frags(n_max=3) + [('c', '\n')]
+            fr = merge_consts(fr)
+            body = frags_src(fr, quote=False)
+            if any(l.strip() == 'EOF' for l in body.split('\n')):
+                fr = [('c', 'a\n')]
+                body = 'a\n'
+            return dict(kind='use', src='file {FILE} = <<EOF\n%sEOF' % body, vals=[('str', fr)], file=True)
+        if r < 18:
+            # a command line: the rest of the line is ONE string
+            fr = self.gen_frags(n_max=4)
+            return dict(kind='use', src="$ true '%s'" % frags_src(fr, quote=False), vals=[], names=frags_names(fr), cmdline=fr)
         if rng.chance(0.6):
             fr = self.gen_frags(n_max=4)
             return dict(kind='use', src='file %s = %s' % ('{FILE}', frags_src(fr)), vals=[('str', fr)], file=True)
@@ -559,9 +586,9 @@ def program_text(prog):
     for ph, lst in prog['sections']:
         lines.append('[%s]' % ph)
         for ins in lst:
-            lines.append(ins['src'])
-            where[len(lines)] = (ph, counters[ph])
-            ins['line'] = len(lines)
+            where[len(lines) + 1] = (ph, counters[ph])
+            ins['line'] = len(lines) + 1
+            lines.extend(ins['src'].split('\n'))
             ins['idx'] = counters[ph]
             counters[ph] += 1
         lines.append('')
@@ -858,20 +885,28 @@ def ref_term(nm, name, restr):
 class RefFeed:
     """hands out the live references in order, checking the names against the generated source"""
 
-    def __init__(self, refs, nm):
+    def __init__(self, refs, nm, lenient=None):
         self.refs, self.nm, self.i = list(refs), nm, 0
+        self.lenient = lenient  # a list collecting messages: the term is then built from the SOURCE's references
 
     def next(self, name):
         if self.i >= len(self.refs) or self.refs[self.i].name != name:
-            raise RefMismatch('reference #%d: source has %s, the parsed instruction reports %s' % (
-                self.i, name, [r.name for r in self.refs]))
+            msg = 'reference #%d: source has %s, the parsed instruction reports %s' % (self.i, name, [r.name for r in self.refs])
+            if self.lenient is None:
+                raise RefMismatch(msg)
+            self.lenient.append(msg)
+            self.i = len(self.refs) + 1000  # from here on only the source counts
+            return '(Ref %s any_data)' % self.nm(name)
         r = self.refs[self.i]
         self.i += 1
         return ref_term(self.nm, r.name, r.restrictions)
 
     def done(self):
-        if self.i != len(self.refs):
-            raise RefMismatch('the parsed instruction reports more references than the source has: %s' % [r.name for r in self.refs])
+        if self.i != len(self.refs) and self.i < 1000:
+            msg = 'the parsed instruction reports more references than the source has: %s' % [r.name for r in self.refs]
+            if self.lenient is None:
+                raise RefMismatch(msg)
+            self.lenient.append(msg)
 
 
 def frags_term(frags, feed):
@@ -902,13 +937,42 @@ def val_term(val, feed):
     raise ValueError(val)
 
 
+def string_values(prog):
+    """the fragment lists of every string value of the program (strings, string elements of lists, here-documents,
+    command lines)"""
+    out = []
+    for ph in PHASES:
+        for ins in prog['phases'][ph]:
+            vs = list(ins.get('vals', [])) + ([ins['val']] if ins['kind'] == 'def' else [])
+            for v in vs:
+                if v[0] == 'str':
+                    out.append(v[1])
+                elif v[0] == 'lst':
+                    out += [e[1] for e in v[1] if e[0] == 'e']
+            if ins.get('cmdline') is not None:
+                out.append(ins['cmdline'])
+    return out
+
+
+def splits_term(prog):
+    rows = []
+    for fr in string_values(prog):
+        fr = merge_consts(fr)  # an empty constant is no fragment of the text
+        if not fr:
+            continue
+        raw = frags_src(fr, quote=False)
+        exp = clist(['(inl %s)' % ctext(f[1]) if f[0] == 'c' else '(inr %s)' % ctext(f[1]) for f in fr])
+        rows.append('(%s, %s)' % (ctext(raw), exp))
+    return clist(rows) if rows else '(@nil (text * list (text + text)))'
+
+
 def refs_term(refs, nm):
     if not refs:
         return '(@nil ref)'
     return clist([ref_term(nm, r.name, r.restrictions) for r in refs])
 
 
-def instr_term(ins, usages, live, nm):
+def instr_term(ins, usages, live, nm, lenient=None):
     from exactly_lib.symbol.sdv_structure import SymbolReference, SymbolDefinition
     if ins['kind'] == 'def':
         if len(usages) != 1 or not isinstance(usages[0], SymbolDefinition) or usages[0].name != ins['name']:
@@ -918,7 +982,7 @@ def instr_term(ins, usages, live, nm):
         if ins['val'][0] == 'other':
             sdv = '(SOther %s)' % refs_term(list(d.references), nm)
         else:
-            feed = RefFeed(d.references, nm)
+            feed = RefFeed(d.references, nm, lenient)
             sdv = val_term(ins['val'], feed)
             feed.done()
         return '(IDef %s (Cont %s %s))' % (nm(ins['name']), VT_COQ[vt], sdv)
@@ -929,11 +993,17 @@ def instr_term(ins, usages, live, nm):
     if any(not isinstance(u, SymbolReference) for u in usages):
         raise RefMismatch('a non-def instruction reports a definition')
     if ins['vals']:
-        feed = RefFeed(usages, nm)
+        feed = RefFeed(usages, nm, lenient)
         vals = clist([val_term(v, feed) for v in ins['vals']])
         feed.done()
     else:
         vals = '(@nil sdv)'
+    if ins.get('cmdline') is not None and [u.name for u in usages] != ins['names']:
+        msg = 'command line: source has %s, the parsed instruction reports %s' % (ins['names'], [u.name for u in usages])
+        if lenient is None:
+            raise RefMismatch(msg)
+        lenient.append(msg)
+        return '(IUse %s %s)' % (clist(['(Ref %s any_data)' % nm(n) for n in ins['names']]) if ins['names'] else '(@nil ref)', vals)
     return '(IUse %s %s)' % (refs_term(usages, nm), vals)
 
 
@@ -1045,8 +1115,8 @@ class Runner:
             shutil.rmtree(sds_dir, ignore_errors=True)
         return text, o
 
-    def case_term(self, prog, text, o):
-        """-> Coq term of the case (raises RefMismatch)"""
+    def case_term(self, prog, text, o, lenient=None):
+        """-> Coq term of the case (raises RefMismatch unless lenient is a list)"""
         live = self.live
         nm = Namer(live)
         parsed = live.parse(self.case, text)
@@ -1062,15 +1132,16 @@ class Runner:
                     if ln != ins['line']:
                         raise RefMismatch('instruction %d of [%s] is at line %s, generated at line %d' % (counters[ph], ph, ln, ins['line']))
                 counters[ph] += 1
-                terms.append(instr_term(ins, usages, live, nm))
+                terms.append(instr_term(ins, usages, live, nm, lenient))
             secs.append('(%s, %s)' % (PH_COQ[ph], clist(terms) if terms else '(@nil instr)'))
         for ph in PHASES:
             if ph != 'act' and counters[ph] != len(parsed[ph]):
                 raise RefMismatch('[%s]: %d instructions generated, %d parsed' % (ph, counters[ph], len(parsed[ph])))
         if not prog['phases']['act'] and parsed['act'][0][1]:
             raise RefMismatch('an empty act phase reports usages')
-        return '(C08Case %s builtins %s %s)' % (clist([ctext(t) for t in o['roots']]),
-                                                clist(secs) if secs else '(@nil (phase * list instr))', obs_term(o))
+        return '(C08Case %s builtins %s %s %s)' % (clist([ctext(t) for t in o['roots']]),
+                                                   clist(secs) if secs else '(@nil (phase * list instr))',
+                                                   splits_term(prog), obs_term(o))
 
     def builtins_def(self):
         nm = Namer(self.live)
@@ -1200,14 +1271,22 @@ def _run(ctx, res, rng, runner, programs):
             res.disagreements.append(Failure('correspondence', cj, 'the run ended in a way the model has no counterpart for: '
                                                                    '%s %s' % (o['verdict'], o['exception'])))
             continue
+        mismatch = None
         try:
             term = runner.case_term(prog, text, o)
         except RefMismatch as ex:
+            # the tie is broken for this case; the property predicate is still evaluated, on the references the SOURCE
+            # contains with the restrictions their positions demand
             res.disagreements.append(Failure('correspondence', cj, 'references reported by the parsed instruction differ from '
                                                                    'the references in the source: %s' % ex))
-            continue
+            msgs = []
+            try:
+                term = runner.case_term(prog, text, o, lenient=msgs)
+            except RefMismatch:
+                continue
+            mismatch = True
         terms.append(term)
-        kept.append((prog, text, o, cj))
+        kept.append((prog, text, o, cj, mismatch))
         res.count('verdict:' + o['verdict'])
         res.count('instructions:%d' % sum(len(prog['phases'][p]) for p in PHASES))
         if is_nontrivial(prog, o):
@@ -1218,7 +1297,7 @@ def _run(ctx, res, rng, runner, programs):
                                      extra_defs=runner.builtins_def(), shard_size=200)
     res.errors += errs
     for i in pb:
-        prog, text, o, cj = kept[i]
+        prog, text, o, cj, mismatch = kept[i]
         listed = kf_predicate(prog)
         if listed:
             res.count('known finding exercised')
@@ -1228,7 +1307,9 @@ def _run(ctx, res, rng, runner, programs):
                                          'reference to the defined value (verdict %s)' % o['verdict'],
                                          finding=KF_ID if listed else None))
     for i in cb:
-        prog, text, o, cj = kept[i]
+        prog, text, o, cj, mismatch = kept[i]
+        if mismatch:
+            continue  # already recorded
         res.disagreements.append(Failure('correspondence', cj, 'Model/Symbols.v (sym_execute) and the implementation differ'))
 
 
